@@ -178,7 +178,11 @@ func (m *Message) SetRoot(p Ptr) error {
 	if err != nil {
 		return annotate(err).errorf("set root")
 	}
-	if err := s.root().Set(0, p); err != nil {
+	root := s.root()
+	if root.Len() == 0 {
+		return newError("set root: first segment is too small to hold the root pointer")
+	}
+	if err := root.Set(0, p); err != nil {
 		return annotate(err).errorf("set root")
 	}
 	return nil
